@@ -40,7 +40,7 @@ def header(kind):
 
 def out_l(o):
     return C("Ok", Raw("tt")) if o == "Ok" else C("Raise", C(o if o in ("IndexError", "ValueError", "TraitError",
-                                                                         "TypeError") else "OtherError"))
+                                                                         "TypeError", "OverflowError") else "OtherError"))
 
 
 def out_q(mod, o, names):
@@ -59,7 +59,7 @@ def list_term(case, obs):
             t = C("LOp", c05.op_term(op, prev))
         prev = list(ob["after"])
         h.append((t, c05.obs_term(dict(ob, out=ob["out"] if ob["out"] in ("Ok", "IndexError", "ValueError",
-                                                                          "TraitError", "TypeError") else "OtherError"))))
+                                                                          "TraitError", "TypeError", "OverflowError") else "OtherError"))))
     return (C(case["vk"]), case["minlen"], opt(case["maxlen"]), list(case["init"]), h)
 
 
@@ -651,7 +651,7 @@ def gen_deep(rnd, ctx, maxops):
 def res_term(out, content):
     if out == "Ok":
         return C("Ok", content)
-    return C("Raise", C(out if out in ("IndexError", "ValueError", "TraitError", "TypeError") else "OtherError"))
+    return C("Raise", C(out if out in ("IndexError", "ValueError", "TraitError", "TypeError", "OverflowError") else "OtherError"))
 
 
 def default_term(case, obs):
